@@ -1317,7 +1317,17 @@ class Unicode(ConstantOpcode):
         return obj.encode("utf-8")
 
     def encode_body(self) -> bytes:
-        return raw_unicode_escape(self.arg).encode("utf-8")
+        text = self.arg
+        if isinstance(text, (bytes, bytearray)):
+            text = bytes(text).decode("utf-8")
+        # same escaping as pickle.py uses for protocol 0: the VM decodes the line with
+        # raw-unicode-escape, so backslashes and line terminators must be \uXXXX escaped
+        text = text.replace("\\", "\\u005c")
+        text = text.replace("\0", "\\u0000")
+        text = text.replace("\n", "\\u000a")
+        text = text.replace("\r", "\\u000d")
+        text = text.replace("\x1a", "\\u001a")
+        return text.encode("raw-unicode-escape") + b"\n"
 
 
 class String(ConstantOpcode):
